@@ -21,7 +21,7 @@ REPLAYS = os.path.join(VERIF, 'replays')
 
 ASSUMPTIONS_COMMON = [
     'A-TOOLCHAIN: Verus 0.2026.09.13 / Z3 are sound; rustc 1.98.1 (Verus) and the repository toolchain give this source the same semantics',
-    'A-EXTRACT: rewrites R1-R9 of tools/extract.py (DESIGN.md 2.2) preserve behaviour; they are purely syntactic and re-applied to the current source on every run',
+    'A-EXTRACT: rewrites R1-R11 of tools/extract.py (DESIGN.md 2.2) preserve behaviour; they are purely syntactic and re-applied to the current source on every run',
     'A-STD: vstd specifications of Vec/Option/Result/slices/BTreeSet and the added assume_specifications of std functions (listed in trusted_base)',
     'A-DERIVE: derived Clone returns an equal value, derived Default is field-wise default (listed in trusted_base)',
     'A-QMARK: `?` converts errors with From::from (axiom_question_mark_uses_from)',
@@ -316,13 +316,25 @@ def known_findings(pid):
 
 
 def replay_bin():
-    """build /verif/replay against the current /repo (offline); -> path or None"""
+    """build /verif/replay against the current repository (offline); -> path or None.  COSET_REPO (evaluation on a scratch
+    worktree) gets its own copy of the replay crate and its own target directory."""
     import shutil
+    repo = extract.REPO
     rdir = os.path.join(VERIF, 'replay')
-    shutil.copy('/repo/Cargo.lock', os.path.join(rdir, 'Cargo.lock'))
-    env = dict(os.environ, CARGO_NET_OFFLINE='true', CARGO_TARGET_DIR=os.path.join(VERIF, 'build/replay-target'))
+    tdir = os.path.join(VERIF, 'build/replay-target')
+    if repo != '/repo':
+        tag = hashlib.sha256(repo.encode()).hexdigest()[:8]
+        rcopy = os.path.join(VERIF, 'build', 'replay-' + tag)
+        shutil.rmtree(rcopy, ignore_errors=True)
+        shutil.copytree(rdir, rcopy, ignore=shutil.ignore_patterns('target'))
+        t = open(os.path.join(rcopy, 'Cargo.toml')).read().replace('path = "/repo"', 'path = "%s"' % repo)
+        open(os.path.join(rcopy, 'Cargo.toml'), 'w').write(t)
+        rdir = rcopy
+        tdir = os.path.join(VERIF, 'build/replay-target-' + tag)
+    shutil.copy(os.path.join(repo, 'Cargo.lock'), os.path.join(rdir, 'Cargo.lock'))
+    env = dict(os.environ, CARGO_NET_OFFLINE='true', CARGO_TARGET_DIR=tdir)
     p = subprocess.run(['cargo', 'build', '--offline', '--release'], cwd=rdir, env=env, capture_output=True, text=True)
-    b = os.path.join(VERIF, 'build/replay-target/release/coset-replay')
+    b = os.path.join(tdir, 'release/coset-replay')
     return b if p.returncode == 0 and os.path.exists(b) else None
 
 
@@ -519,9 +531,11 @@ def main():
     # definitions (from_cbor_value, to_cbor_value, from_i64, new, ...) are not followed automatically - those callees are
     # listed explicitly in obligations.py.
     auto = callee_closure(text, tab, [n for n, k in obl if k == 'body'])
+    auto_set = set()
     for n in auto:
         if (n, 'body') not in obl and (n, 'lemma') not in obl:
             obl.append((n, 'body'))
+            auto_set.add(n)
     def ok(n, k):
         if k == 'nec':
             return not tab[n]['success']
@@ -586,7 +600,7 @@ def main():
     rlimit_hit = [d for d in run['diagnostics'] if 'rlimit' in d['message'] or 'Resource limit' in d['message']]
     discharged = len(obl) - len(failed)
     per = [{'obligation': n, 'kind': k, 'backend': ('kani/cbmc complete' if k == 'kani' else 'kani/cbmc ' + k[5:] if k.startswith('kani') else 'verus/z3'), 'discharged': ok(n, k) or n in not_relevant, 'expect': ('fail' if k == 'nec' else 'fail only at the documented panic' if k == 'ref' else 'pass'),
-            'time_ms': tab[n]['time_us'] // 1000, 'rlimit': tab[n]['rlimit']} for n, k in obl]
+            'time_ms': tab[n]['time_us'] // 1000, 'rlimit': tab[n]['rlimit'], 'source': ('callee closure' if n in auto_set else 'listed')} for n, k in obl]
     cov = {
         'obligations': len(obl), 'discharged': discharged,
         'checker_cmd': run['cmd'] + ((' ; ' + kani['cmd']) if kani else ''),
